@@ -20,7 +20,7 @@ def runCase (payload : String) : String :=
   | none => "bad-payload"
   | some prog =>
     let r := runProgram prog
-    let t := outcomeText r
+    let t := outcomeTextFull r
     let t := if t.contains '?' then "UNSUP log shows a value the model does not know" else t
     let nt : Bool := match r with
       | .done _ st => decide (st.log.size ≥ 2)
